@@ -142,6 +142,21 @@ class Fn:
                 if rx is None or rx.search(callee_key(t)) or rx.search(t["callee"]) or rx.search(t["raw"]):
                     yield i, t
 
+    def reachable_without_edges(self, start, removed_blocks=(), removed_edges=()):
+        seen = set()
+        todo = [start]
+        rb = set(removed_blocks)
+        re_ = set(removed_edges)
+        while todo:
+            b = todo.pop()
+            if b in seen or b in rb:
+                continue
+            seen.add(b)
+            for s2 in self.succs()[b]:
+                if (b, s2) not in re_:
+                    todo.append(s2)
+        return seen
+
     def return_blocks(self):
         return [i for i, b in enumerate(self.blocks) if b["term"]["k"] == "return" and not b.get("cleanup")]
 
@@ -206,11 +221,19 @@ class Fn:
             return self.describe_place(o["p"], depth)
         return "?"
 
+    def deep(self, o):
+        """describe an operand looking through named locals (only arguments keep their names)"""
+        self._deep = True
+        try:
+            return self.describe_operand(o)
+        finally:
+            self._deep = False
+
     def describe_local(self, local, depth=0):
         """canonical description of what a temp holds: follows single-definition chains of
         refs / copies / calls up to named variables and arguments."""
         nm = self.name_of(local)
-        if nm is not None:
+        if nm is not None and not (getattr(self, "_deep", False) and local > self.rec["arg_count"] and len(self.defs_of(local)) == 1):
             return nm
         if depth > 12:
             return "_%d" % local
